@@ -639,7 +639,7 @@ static bool parse (const std::vector<std::string>& t, Cmd& c)
   if (o == "rszv" && t.size () == 4) { CX (1); NAT (2, n); return parse_arg (t[3], c); }
   if (o == "asn" && t.size () == 4) { CX (1); NAT (2, n); if (! to_long (t[3], r)) return false; c.v = static_cast<int> (r); return true; }
   if ((o == "asr" || o == "app") && t.size () == 4) { CX (1); c.it = t[2]; if (c.it != "fw" && c.it != "in") return false; return parse_vals (t[3], c.vals); }
-  if ((o == "asc" || o == "asm" || o == "swp") && t.size () == 3) { CX (1); CY (2); return true; }
+  if ((o == "asc" || o == "asm" || o == "swp" || o == "appc" || o == "appm") && t.size () == 3) { CX (1); CY (2); return true; }
   if ((o == "at" || o == "get") && t.size () == 3) { CX (1); NAT (2, p); return true; }
   return false;
 }
@@ -661,7 +661,7 @@ static bool valid (const Cmd& c)
   if (o == "erar") return c.p <= c.q && static_cast<std::size_t> (c.q) <= sz;
   if (o == "pop") return sz > 0;
   if (o == "get") return static_cast<std::size_t> (c.p) < sz;
-  if (o == "asc" || o == "asm") return alive (c.y) && c.x != c.y;
+  if (o == "asc" || o == "asm" || o == "appc" || o == "appm") return alive (c.y) && c.x != c.y;
   if (o == "swp") return alive (c.y) && c.x != c.y && ((c.x < 2) == (c.y < 2));
   return false;
 }
@@ -749,6 +749,8 @@ struct DoPairAssign
     if (o == "asc") casg (x, y);
     else if (o == "asm") masg (x, y);
     else if (o == "swp") sw (x, y);
+    else if (o == "appc") x.append (static_cast<const VY&> (y));
+    else if (o == "appm") x.append (std::move (y));
   }
   template <typename V> void casg (V& x, V& y) { x = y; }
   template <typename VX, typename VY> void casg (VX& x, VY& y) { x.assign (y); }
@@ -790,6 +792,8 @@ static std::string shadow_apply (const Cmd& c, bool& known)
   else if (o == "asc") s = g_shadow[c.y];
   else if (o == "asm") s = g_shadow[c.y];
   else if (o == "swp") s.swap (g_shadow[c.y]);
+  else if (o == "appc") s.insert (s.end (), g_shadow[c.y].begin (), g_shadow[c.y].end ());
+  else if (o == "appm") { s.insert (s.end (), g_shadow[c.y].begin (), g_shadow[c.y].end ()); g_shadow[c.y].clear (); }
   else if (o == "at") { if (static_cast<std::size_t> (c.p) < s.size ()) { if (s[static_cast<std::size_t> (c.p)] == HUSK) out << "v~"; else out << "v" << s[static_cast<std::size_t> (c.p)]; } else out << "!range"; }
   else if (o == "get") { if (s[static_cast<std::size_t> (c.p)] == HUSK) out << "v~"; else out << "v" << s[static_cast<std::size_t> (c.p)]; }
   return out.str ();
@@ -821,7 +825,7 @@ static void shadow_compare (int x, const char *what)
 
 static bool is_growing_strong (const std::string& o, const Cmd& c, std::size_t size_before)
 {
-  if (o == "pb" || o == "pbm" || o == "rsv" || o == "rsz" || o == "rszv" || o == "stf" || o == "app") return true;
+  if (o == "pb" || o == "pbm" || o == "rsv" || o == "rsz" || o == "rszv" || o == "stf" || o == "app" || o == "appc" || o == "appm") return true;
   if ((o == "ins" || o == "insm") && static_cast<std::size_t> (c.p) == size_before) return true;
   return false;
 }
@@ -1011,7 +1015,7 @@ static void run_line (const std::string& line_in)
       if (c.x < 2) { DoCtorFrom<VN> d = { k, slot_mem (c.x) }; with1 (c.y, d); }
       else { DoCtorFrom<VM> d = { k, slot_mem (c.x) }; with1 (c.y, d); }
     }
-    else if (o == "asc" || o == "asm" || o == "swp")
+    else if (o == "asc" || o == "asm" || o == "swp" || o == "appc" || o == "appm")
     {
       DoPairAssign d (k); with2 (c.x, c.y, d);
     }
@@ -1082,6 +1086,13 @@ static void run_line (const std::string& line_in)
       if (o != "app" && (after.f.cap != before_x.f.cap || after.f.data != before_x.f.data)) wmsg ("C05", o + ": threw (" + exc + ") and capacity()/data() changed");
       std::size_t blocks_now = 0; for (std::size_t i = 0; i < g_blocks.size (); ++i) if (g_blocks[i].heap) ++blocks_now;
       if (o != "app" && blocks_now != blocks_before) wmsg ("C05", o + ": threw (" + exc + ") and the number of live blocks changed");
+      if (o == "appc" || o == "appm")
+      {
+        // append (small_vector&&) additionally leaves its SOURCE unchanged (none of its elements moved-from)
+        Snapshot ys = snap (c.y);
+        bool ysame = ys.f.size == before_y.f.size && ys.vals == before_y.vals && ys.husk == before_y.husk && ys.f.data == before_y.f.data && ys.f.cap == before_y.f.cap;
+        if (! ysame) wmsg ("C05", o + ": threw (" + exc + ") and the source changed");
+      }
     }
   }
   // C12: length_error leaves the container unchanged
@@ -1101,7 +1112,7 @@ static void run_line (const std::string& line_in)
   if (exc == "-" && ! is_ctor && o != "del")
   {
     Info f = info (c.x);
-    bool growing = o == "pb" || o == "pbm" || o == "ins" || o == "insm" || o == "insn" || o == "insr" || o == "rsz" || o == "rszv" || o == "asn" || o == "asr" || o == "app";
+    bool growing = o == "pb" || o == "pbm" || o == "ins" || o == "insm" || o == "insn" || o == "insr" || o == "rsz" || o == "rszv" || o == "asn" || o == "asr" || o == "app" || o == "appc" || o == "appm";
     // the temporary buffering of a single-pass range inserted mid-sequence may allocate (C04's stated exception);
     // the container's own buffer must stay where it is all the same (C10)
     bool single_pass_mid = o == "insr" && c.it == "in" && static_cast<std::size_t> (c.p) < before_x.f.size;
@@ -1141,6 +1152,34 @@ static void run_line (const std::string& line_in)
     if (o == "asc") { int want = A_POCCA ? before_y.f.alloc : before_x.f.alloc; if (info (c.x).alloc != want) wmsg ("C07", "copy assignment: allocator propagation rule broken"); if (info (c.y).alloc != before_y.f.alloc) wmsg ("C07", "copy assignment changed the source's allocator"); }
     if (o == "asm") { int want = A_POCMA ? before_y.f.alloc : before_x.f.alloc; if (info (c.x).alloc != want) wmsg ("C07", "move assignment: allocator propagation rule broken"); }
     if (o == "swp") { int wx = A_POCS ? before_y.f.alloc : before_x.f.alloc, wy = A_POCS ? before_x.f.alloc : before_y.f.alloc; if (info (c.x).alloc != wx || info (c.y).alloc != wy) wmsg ("C07", "swap: allocator exchange rule broken"); }
+  }
+  if (exc == "-" && o == "appc")
+  {
+    Snapshot ys = snap (c.y);
+    if (ys.f.size != before_y.f.size || ys.vals != before_y.vals || ys.husk != before_y.husk || ys.f.data != before_y.f.data || ys.f.cap != before_y.f.cap)
+      wmsg ("C01", "append (const small_vector&) changed its source");
+  }
+  if (exc == "-" && o == "appm")
+  {
+    Info fy = info (c.y);
+    if (fy.size != 0) wmsg ("C01", "append (small_vector&&): the source is not empty afterwards");
+    if (fy.data != before_y.f.data || fy.cap != before_y.f.cap) wmsg ("C10", "append (small_vector&&): clear() of the source changed its capacity()/data()");
+  }
+  // C09: swap of two heap containers with interchangeable allocators exchanges the buffers and touches no element
+  if (exc == "-" && o == "swp")
+  {
+    Info fx = info (c.x), fy = info (c.y);
+    bool interchangeable = A_AE || A_POCS || before_x.f.alloc == before_y.f.alloc;
+    if (interchangeable && ! before_x.f.inlined && ! before_y.f.inlined)
+    {
+      if (fx.data != before_y.f.data || fy.data != before_x.f.data) wmsg ("C09", "swp: both on the heap and stealing permitted, but the buffers were not exchanged");
+#ifndef E_TRIVIAL
+      if (g_elem_events_this_op != 0) wmsg ("C09", "swp: element operations although both buffers could be exchanged");
+#endif
+      if (g_allocs_this_op != 0) wmsg ("C09", "swp: allocation although both buffers could be exchanged");
+    }
+    if (! interchangeable && ((fx.data == before_y.f.data && ! before_y.f.inlined) || (fy.data == before_x.f.data && ! before_x.f.inlined)))
+      wmsg ("C09", "swp: buffer transferred although the allocators are unequal and do not propagate");
   }
   // C09: steal rule
   if (exc == "-" && (o == "newm" || o == "asm"))
